@@ -96,7 +96,9 @@ def gen_normal_args(rng, precision):
     sigma = 10 ** rng.uniform(-dec / 2, dec / 2)
     mu = rng.choice([0.0, 1.0, rng.uniform(-5, 5), 10 ** rng.uniform(-dec / 2, dec / 2) * rng.choice([-1, 1])])
     zmax = 38 if precision == "64b" else 12
-    z = rng.choice([rng.uniform(-3, 3), rng.uniform(-zmax, zmax), 0.0, 10 ** rng.uniform(-8, 1)])
+    # fits really visit |z| of several hundred (a gamma at its bound against a 3% constraint gave |z| = 327)
+    zfar = 400 if precision == "64b" else 100
+    z = rng.choice([rng.uniform(-3, 3), rng.uniform(-zmax, zmax), 0.0, 10 ** rng.uniform(-8, 1), rng.uniform(-zfar, zfar)])
     x = mu + z * sigma
     return x, mu, sigma
 
@@ -218,6 +220,61 @@ def check_tuple(kind, args, backend, precision, shard, broadcast=False):
     shard.covered("primitives", kind)
 
 
+def record_ranges(shard, seed):
+    """Passive recorder: the argument ranges that fits and p-value computations really produce (the directed
+    workload above must be a superset; both ranges are printed in the evidence)."""
+    import copy
+    import numpy as np
+    import pyhf
+    from .. import gen
+    from pyhf.tensor.numpy_backend import numpy_backend as NB
+
+    rec = {"poisson_n": [np.inf, -np.inf], "poisson_rate": [np.inf, -np.inf], "normal_abs_z": [np.inf, -np.inf], "normal_sigma": [np.inf, -np.inf], "cdf_arg": [np.inf, -np.inf]}
+
+    def upd(key, arr):
+        a = np.asarray(arr, dtype=float).ravel()
+        a = a[np.isfinite(a)]
+        if a.size:
+            rec[key][0] = min(rec[key][0], float(a.min()))
+            rec[key][1] = max(rec[key][1], float(a.max()))
+
+    o_pl, o_nl, o_cdf = NB.poisson_logpdf, NB.normal_logpdf, NB.normal_cdf
+
+    def pl(self, n, lam):
+        upd("poisson_n", n); upd("poisson_rate", lam)
+        return o_pl(self, n, lam)
+
+    def nl(self, x, mu, sigma):
+        upd("normal_abs_z", np.abs((np.asarray(x, dtype=float) - np.asarray(mu, dtype=float)) / np.asarray(sigma, dtype=float))); upd("normal_sigma", sigma)
+        return o_nl(self, x, mu, sigma)
+
+    def cdf(self, x, mu=0, sigma=1):
+        upd("cdf_arg", (np.asarray(x, dtype=float) - mu) / sigma)
+        return o_cdf(self, x, mu, sigma)
+
+    NB.poisson_logpdf, NB.normal_logpdf, NB.normal_cdf = pl, nl, cdf
+    try:
+        rng = random.Random(seed)
+        for _ in range(4):
+            spec, _ = gen.gen_spec(rng, profile="wellposed", max_channels=2, max_samples=3, max_bins=3, max_nuis=8)
+            spec["parameters"] = [p for p in spec["parameters"] if p["name"] == "lumi"]
+            model = pyhf.Model(copy.deepcopy(spec), poi_name="mu")
+            rates = [float(x) for x in model.expected_actualdata(model.config.suggested_init())]
+            data = [float(gen.poisson_draw(rng, r)) for r in rates] + list(model.config.auxdata)
+            try:
+                pyhf.infer.hypotest(1.0, data, model, return_expected_set=True)
+                pyhf.infer.hypotest(0.0, data, model, test_stat="q0")
+                pyhf.infer.intervals.upper_limits.upper_limit(data, model, scan=np.linspace(0.1, 8, 6))
+            except Exception:
+                pass
+    finally:
+        NB.poisson_logpdf, NB.normal_logpdf, NB.normal_cdf = o_pl, o_nl, o_cdf
+    for k, (lo, hi) in rec.items():
+        if hi >= lo:
+            shard.covered("ranges_seen_in_real_inference", f"{k}: [{lo:.3g}, {hi:.3g}]")
+            shard.counters["recorded_inference_ranges"] += 1
+
+
 def plan(tier, seed):
     per = 450 if tier == "quick" else 20000
     combos = [(b, p) for b in ("numpy", "jax", "pytorch", "tensorflow") for p in ("64b", "32b")]
@@ -251,6 +308,9 @@ def run_shard(shard):
             check_tuple("cdf", (x, mu, sigma), p["backend"], p["precision"], shard)
         if k == 0 and shard.index in (0, 3):
             shard.sample({"poisson": [n, lam], "normal": [x, mu, sigma], "cdf": xc, "backend": p["backend"], "precision": p["precision"]})
+    if p["backend"] == "numpy" and p["precision"] == "64b" and shard.index == 0:
+        record_ranges(shard, p["seed"])
+        shard.covered("ranges_of_directed_workload", "poisson n: [0, 1e8]; rate: [0, subnormal .. 1e8]; |z| up to 400 (log-density) / 38 (CDF); sigma over 20 decades; cdf argument [-38, 38]")
     shard.maximum("poisson_n_max", pr["poisson"][1])
     shard.maximum("poisson_rate_max", pr["poisson"][3])
     shard.covered("poisson_rate_min_seen", f"{pr['poisson'][2]:.3g}")
